@@ -25,7 +25,7 @@ MAX_INLINE_DEPTH = 12
 
 
 class Obligation:
-    __slots__ = ("oid", "pc", "goal", "path", "note", "case", "imprecise")
+    __slots__ = ("oid", "pc", "goal", "path", "note", "case", "imprecise", "unsupported")
 
     def __init__(self, oid, pc, goal, path, note="", case="", imprecise=None):
         self.oid = oid
@@ -35,6 +35,7 @@ class Obligation:
         self.note = note
         self.case = case
         self.imprecise = imprecise  # reason, when the path used an over-approximation (a `sat` then needs native confirmation)
+        self.unsupported = None     # reason, when the clause could not be evaluated on this path (verdict: unknown)
 
 
 class Frame:
